@@ -6,8 +6,11 @@ dx = 2^-k, so that every float operation is exact; the tuples received by test_f
 the call and the seed arrays are compared with equality inside Coq against Model/FD.v.
 np.random.rand is replaced from outside by a generator of known dyadic numbers; the order in which np.nditer visits
 the entries of an input is taken from numpy (oracle).
-Oracle: the property text on the implementation (restoration, tuple count, analytical value = backpropagated
-sensitivity, numerical value -> true derivative with O(dx) error via exact extrapolation, wrong adjoint <=> mismatch).
+Oracle: the property text on the implementation: use_df untouched; restoration of every input state; no sensitivity
+left on ANY signal of the scenario; tuple count; every analytical value = entry of an independently backpropagated
+sensitivity for the seed; every numerical value = the seed-weighted difference quotient recomputed independently (exact
+rationals); numerical value -> true derivative with O(dx) error via exact extrapolation; wrong adjoint <=> mismatch.
+The witnesses of the fixed findings F07, F24, F25, F26 are corpus cases and regression probes.
 """
 import os, io, json, glob, copy, contextlib
 from fractions import Fraction
@@ -164,7 +167,12 @@ def make_poly_class(pym):
                         continue
                     wv = np.broadcast_to(np.asarray(w, dtype=dt).ravel(), (len(s['c'][j]),))
                     acc = acc + cast(s['B'][j][i], dt).T @ wv + 2 * xv * (cast(s['Qb'][j][i], dt).T @ wv)
-                res.append(acc.reshape(x.shape) if (isinstance(x, np.ndarray) or sp.issparse(x)) else acc[0])
+                if isinstance(x, np.ndarray) or sp.issparse(x):
+                    res.append(acc.reshape(x.shape))
+                elif s.get('pysens'):
+                    res.append(complex(acc[0]) if dt is complex else float(acc[0]))      # Python scalar
+                else:
+                    res.append(acc[0])                                                    # numpy scalar
             return res
     return Poly
 
@@ -172,6 +180,7 @@ def make_poly_class(pym):
 # ----------------------------------------------------------------------------- scenario = plain data (json-able)
 # roots: [{'value': spec or None, 'sens': spec or None}]   value spec: {'kind','shape','data':[[re,im]..],'cx','order'}
 # mods : [{'ins': [ref], 'outs': [root ids], 'spec': {...}}]  ref: {'root': i, 'index': json index or None}
+#        spec['pysens'] (optional): sensitivities of scalar inputs are returned as Python float / complex
 # fd   : {'network','fromsig':[ref]|None,'tosig':[root]|None,'k','relative','random','use_df':[...]|None,'keep_zero'}
 def build_value(v):
     if v is None:
@@ -301,7 +310,7 @@ def spec_lit(s):
             f'p_B := {mats(s["B"])}; p_Qb := {mats(s["Qb"])}; p_okind := [' + '; '.join(kinds) + f']; p_cx := {blit(s["cx"])} |}}')
 
 
-def coq_case(pym, Poly, data, rng, quirk_seed_alias):
+def coq_case(pym, Poly, data, rng):
     """build the scenario twice: once to read numpy oracles / initial store, once to run the implementation"""
     fd = data['fd']
     sc0 = Scenario(pym, Poly, data)
@@ -329,7 +338,7 @@ def coq_case(pym, Poly, data, rng, quirk_seed_alias):
            f'c_random := {blit(fd["random"])}; c_usedf := ' +
            ('None' if fd.get('use_df') is None else '(Some [' + '; '.join(val_lit(build_value(v)) for v in fd['use_df']) + '])') +
            '; c_rand := [' + '; '.join('map Q2Qc ' + ql(c) for c in res['rand']) + ']; c_order := [' +
-           '; '.join(natl(o) for o in orders) + f']; q_seed_alias := {blit(quirk_seed_alias)} |}}')
+           '; '.join(natl(o) for o in orders) + '] |}')
     inps = '[' + '; '.join(sc0.ref_lit(x) for x in inps_ref) + ']'
     outps = '[' + '; '.join(f'(R0 {o})' for o in outs_ref) + ']'
     call = f'finite_difference {cfg} {blit(fd["network"])}\n   {mods}\n   {inps} {outps}\n   {store0}'
@@ -431,14 +440,12 @@ def subnetwork(mods, fromsig, tosig):
 
 def sensible_request(mods, roots, fromsig, tosig, sources_only):
     """the request the routine is written for: a non-empty sub-network whose inputs of interest are not produced
-    inside it and exist when it runs"""
+    inside it and exist when it runs. Outputs of interest may be produced inside the sub-network or upstream of it."""
     i_first, i_last = subnetwork(mods, fromsig, tosig)
     if i_first is None or i_last is None or i_last < i_first:
         return False
     inside = {o for m in mods[i_first:i_last + 1] for o in m['outs']}
     before = {o for m in mods[:i_first] for o in m['outs']}
-    if any(o not in inside for o in tosig):
-        return False          # an output produced upstream keeps the seed after the call (pending finding 'upstream')
     for x in fromsig:
         r = x['root']
         if r in inside:
@@ -448,6 +455,15 @@ def sensible_request(mods, roots, fromsig, tosig, sources_only):
         if sources_only and roots[r]['value'] is None:
             return False
     return True
+
+
+def upstream_outputs(mods, fromsig, tosig):
+    """outputs of interest that are produced before the selected sub-network"""
+    i_first, i_last = subnetwork(mods, fromsig, tosig)
+    if i_first is None or i_last is None:
+        return []
+    before = {o for m in mods[:i_first] for o in m['outs']}
+    return [o for o in tosig if o in before]
 
 
 def gen_scenario(ctx, rng):
@@ -541,9 +557,26 @@ def gen_scenario(ctx, rng):
             spec['c'].append([[rng.randint(-2, 2), rng.randint(-1, 1) if cxfam else 0] for _ in range(m)])
             spec['A'].append([rand_mat(rng, m, n, cxfam) for n in sizes])
             spec['Q'].append([rand_mat(rng, m, n, cxfam, 0.4 if quad else 0.0) for n in sizes])
-            outs.append(new_root(None, None))
+            sens = None
+            if rng.random() < 0.18:
+                # the output Signal is constructed with a sensitivity: it keeps that allocation (zeros, or a stale value)
+                if ok == 'scal':
+                    skind, sshape = rng.choice(('npscal', 'pyfloat')), ()
+                elif is_sparse_kind(ok):
+                    skind, sshape = 'arr', tuple(ok[1])
+                else:
+                    skind, sshape = 'arr', tuple(ok)
+                stale = rng.random() < 0.4
+                sens = dict(kind=skind, shape=list(sshape), cx=cxfam, order='C',
+                            data=[[dy(rng) if stale else 0.0, (dy(rng) if (stale and cxfam) else 0.0)] for _ in range(m)])
+                ctx.count('output:kept-allocation' + ('-stale' if stale else '-zeros'))
+            outs.append(new_root(None, sens))
         spec['B'] = copy.deepcopy(spec['A'])
         spec['Qb'] = copy.deepcopy(spec['Q'])
+        spec['pysens'] = rng.random() < 0.4       # sensitivities of scalar inputs as Python float / complex
+        if spec['pysens'] and any(roots[r['root']]['value'] is not None and roots[r['root']]['value']['kind'] != 'arr'
+                                  for r in in_refs):
+            ctx.count('sensitivity:python-scalar')
         if wrong:
             j = rng.randrange(nouts)
             i = rng.randrange(len(sizes))
@@ -579,7 +612,22 @@ def gen_scenario(ctx, rng):
             return False
         cands_in = [m_in for m in mods for m_in in m['ins'] if not is_sparse_sig(m_in)]
         all_outs = [o for m in mods for o in m['outs']]
+        directed = None
+        if len(mods) >= 2 and rng.random() < 0.3:
+            # directed: an output of interest produced upstream of the selected sub-network
+            i1 = rng.randrange(1, len(mods))
+            fr = [x for x in mods[i1]['ins'] if not is_sparse_sig(x) and not any(x['root'] in m['outs'] for m in mods[i1:])]
+            ups = [o for m in mods[:i1] for o in m['outs']]
+            ins_ = [o for m in mods[i1:] for o in m['outs']]
+            if fr and ups and ins_:
+                directed = ([rng.choice(fr)], [rng.choice(ups), rng.choice(ins_)])
+                if rng.random() < 0.5:
+                    directed[1].reverse()
         for attempt in range(50):
+            if attempt == 0 and directed is not None:
+                fromsig, tosig = directed
+                if sensible_request(mods, roots, fromsig, tosig, relative and cxfam):
+                    break
             fromsig = [rng.choice(cands_in)]
             if rng.random() < 0.3:
                 extra = rng.choice(cands_in)
@@ -596,6 +644,8 @@ def gen_scenario(ctx, rng):
         else:
             fromsig = [mods[0]['ins'][0]]
             tosig = [mods[-1]['outs'][0]]
+        if upstream_outputs(mods, fromsig, tosig):
+            ctx.count('tosig:produced-upstream-of-subnetwork')
         if rng.random() < 0.04:
             lone = new_root(rand_value(rng, 'arr', (2,), cxfam, relative), None)      # used / produced by no module
             if rng.random() < 0.5:
@@ -645,20 +695,19 @@ def normalise(data):
 
 
 # ----------------------------------------------------------------------------- main
-NEW_FINDINGS = {
-    'seed': ('finite_difference', 'seed array not modified; numerical value uses the seed',
-             'output signal constructed with a sensitivity (kept allocation)'),
-    'pycomplex': ('finite_difference', 'imaginary pass reads a scalar sensitivity',
-                  'complex scalar input whose module returns a Python complex sensitivity'),
-    'upstream': ('finite_difference', 'no sensitivity is left set after the call',
-                 'output of interest produced before the selected sub-network'),
+# witnesses of the defects that were found by this check and repaired in /repo (known_findings.json, status "fixed"):
+# corpus file -> (call_site, predicate, input_class) of the registered finding; a regression is reported under that triple
+FIXED_WITNESSES = {
+    'F24_seed_zeroed_kept_output.json':
+        ('finite_difference', 'seed array not modified; numerical value uses the seed',
+         'output signal constructed with a sensitivity (kept allocation)'),
+    'F25_imag_python_complex.json':
+        ('finite_difference', 'imaginary pass reads a scalar sensitivity',
+         'complex scalar input whose module returns a Python complex sensitivity'),
+    'F26_upstream_output_keeps_seed.json':
+        ('finite_difference', 'no sensitivity is left set after the call',
+         'output of interest produced before the selected sub-network'),
 }
-
-
-def registered(ctx, key):
-    cs, pr, ic = NEW_FINDINGS[key]
-    return any(f.get('status') == 'known' and f['call_site'] == cs and f['predicate'] == pr and f['input_class'] == ic
-               for f in ctx.findings)
 
 
 def run(ctx):
@@ -666,21 +715,32 @@ def run(ctx):
     pym.core_objects.get_init_str = lambda: 'File "verif", line 0, in harness'   # diagnostics only (slow inspect.stack)
     Poly = make_poly_class(pym)
     ctx.rule = ('networks of 1..3 user-defined polynomial modules (integer / Gaussian-integer matrices, linear and quadratic, '
-                '~30% with a deliberately wrong adjoint), inputs: python float/int, numpy scalars, 0-D..2-D float and complex '
-                'arrays (C and Fortran order), basic / reversed / integer-array slices, left-over and kept sensitivities; '
-                'outputs: scalars, arrays, sparse matrices; all flag combinations (relative_dx, random, use_df, '
-                'keep_zero_structure, verbose), fromsig/tosig choices incl. intermediate signals and unused signals; '
+                '~30% with a deliberately wrong adjoint, ~40% returning Python float/complex sensitivities for scalar inputs), '
+                'inputs: python float/int/complex, numpy scalars, 0-D..2-D float and complex arrays (C and Fortran order), '
+                'basic / reversed / integer-array slices, left-over and kept sensitivities; outputs: scalars, arrays, sparse '
+                'matrices, ~18% constructed with a kept sensitivity allocation (zeros or stale values); all flag combinations '
+                '(relative_dx, random, use_df, keep_zero_structure, verbose), fromsig/tosig choices incl. intermediate signals, '
+                'outputs of interest produced upstream of the selected sub-network, and unused signals; '
                 'dx = 2^-k (k<=6) and dyadic data: exact comparison of every tuple, every state/sensitivity and the seeds. '
                 'A case is non-trivial when at least one tuple is reported; distinct by scenario data')
     ctx.assumptions += [
         'np.random.rand is replaced from outside by known dyadic numbers (the routine draws its seed from it)',
         'np.nditer visiting order is taken from numpy (oracle); float arithmetic is exact on the generated data',
         'module states are float / complex (np.nditer cannot write a float perturbation into an integer array)',
-        'module sensitivities for scalar inputs are numpy scalars (see pending finding "pycomplex")',
-        'value-level signal model (no object identity) except the seed/output-sensitivity identity (quirk flag)',
-        'generated requests stay inside the routine\'s contract: every tosig is produced inside the selected sub-network, '
-        'no fromsig is produced inside it and every fromsig has a state when the sub-network runs (other requests are '
-        'counted as skipped:request-outside-subnetwork-contract; see pending finding "upstream")',
+        'value-level signal model (no object identity): the routine installs a deep copy of the seed and keeps only copies; '
+        'that no array is shared is observed on the implementation (use_df arrays compared before/after, seeds compared '
+        'in the correspondence), not proved',
+        'kept sensitivity allocations have the dtype of the network (a real allocation receiving complex terms is a '
+        'caller error raised by numpy)',
+        'generated requests stay inside the routine\'s contract: the selected sub-network is non-empty (at least one tosig '
+        'is produced at or after the first module using a fromsig), no fromsig is produced inside it and every fromsig '
+        'has a state when it runs (other requests are counted as skipped:request-outside-subnetwork-contract); '
+        'a tosig produced upstream of the sub-network is inside the contract and generated',
+        'oracle precondition for the analytical-value clauses: the caller hands over no left-over (non-zero) sensitivity on '
+        'an entry of an input of interest that no reset of the executed modules reaches (fromsig is the base Signal, the '
+        'executed modules use it only through slices); such cases are generated, compared exactly with the model '
+        '(which reproduces the left-over in the reported analytical value) and counted as '
+        'oracle:left-over-sensitivity-on-input-not-reached-by-reset',
         'one-level slices as module inputs (nested slices are covered for Signals by C18)']
     ctx.trusted += ['Print Assumptions: theorems over Qc are closed under the global context',
                     'the user-defined module family Poly in tools/checks/C19.py mirrors Model/FD.v poly_f / poly_vjp '
@@ -690,20 +750,22 @@ def run(ctx):
         return
     vlib.check_props(ctx)
     rng = ctx.rng
-    # does the current tree have the seed-aliasing behaviour? (pending finding; decides the quirk flag of the model)
-    try:
-        quirk = probe_seed_alias(pym, Poly)
-    except Exception:
-        quirk = True
-    ctx.extra['seed_alias_behaviour_present'] = quirk
     cases, labels, datas = [], [], []
     for f in sorted(glob.glob(os.path.join(vlib.ROOT, 'corpus', 'C19', '*.json'))):
         datas.append((json.load(open(f)), ('corpus', os.path.basename(f))))
         ctx.count('corpus')
     if getattr(ctx, 'replay', None):
-        d = json.load(open(ctx.replay))
+        rp = ctx.replay if os.path.isabs(ctx.replay) else os.path.join(vlib.ROOT, ctx.replay)
+        d = json.load(open(rp))
         d = d.get('case', d)
-        datas.append((d.get('scenario', d), ('replay', ctx.replay)))
+        if isinstance(d, dict) and 'scenario' in d or (isinstance(d, dict) and 'roots' in d):
+            datas.append((d.get('scenario', d), ('replay', ctx.replay)))
+    try:
+        regression_probes(ctx, pym, Poly, datas)
+    except Exception:
+        import traceback
+        ctx.violation('impl-violates', 'finite_difference', 'the routine completes on well-formed networks', 'exception',
+                      dict(where='witnesses of fixed findings', error=traceback.format_exc()[-1500:]))
     n = int(os.environ.get('C19_N', 1200 if ctx.quick() else 8000))
     for t in range(n):
         datas.append((gen_scenario(ctx, rng), ('random', t)))
@@ -711,7 +773,7 @@ def run(ctx):
     for data, lab in datas:
         nd = normalise(data)
         try:
-            expr, call, res, sc = coq_case(pym, Poly, nd, rng, quirk)
+            expr, call, res, sc = coq_case(pym, Poly, nd, rng)
         except Exception as e:
             import traceback
             ctx.violation('impl-violates', 'finite_difference', 'the routine completes on well-formed networks', 'exception',
@@ -742,149 +804,273 @@ def run(ctx):
                       expected=dict(model=(vals[0][:3000] if vals else e2[-1500:])),
                       got=dict(err=res['err'], tuples=str(res['tuples'])[:2500]),
                       note='Coq model and implementation differ')
-    oracle(ctx, pym, Poly, results, more=bool(failing) or not ctx.quick())
-    try:
-        pending_findings(ctx, pym, Poly)
-    except Exception:
-        import traceback
-        ctx.violation('impl-violates', 'finite_difference', 'the routine completes on well-formed networks', 'exception',
-                      dict(where='witnesses of pending findings', error=traceback.format_exc()[-1500:]))
+    # the oracle always looks at the corpus and at every case the correspondence rejected
+    first = [i for i, lab in enumerate(labels) if lab[0] != 'random']
+    order = first + [i for i in failing if i not in first] + [i for i in range(len(results)) if i not in set(first) | set(failing)]
+    lim = min(len(order), int(os.environ.get('C19_ORACLE_N', len(order))))      # every case, in both tiers
+    oracle(ctx, pym, Poly, [results[i] for i in order[:lim]])
 
 
-def probe_seed_alias(pym, Poly):
-    """True when an output with kept allocation gets the seed array zeroed (pending finding 'seed')"""
-    x = pym.Signal('x', np.array([1.0, 2.0]))
-    y = pym.Signal('y', sensitivity=np.zeros(2))
-    spec = dict(c=[[0, 0]], A=[[[[1, 0], [0, 1]]]], Q=[[[[0, 0], [0, 0]]]], B=[[[[1, 0], [0, 1]]]], Qb=[[[[0, 0], [0, 0]]]],
-                okind=[(2,)], cx=False)
-    m = Poly([x], [y], spec=spec)
-    df = [np.array([1.0, 1.0])]
-    with contextlib.redirect_stdout(io.StringIO()):
-        pym.finite_difference(m, dx=0.25, use_df=df, test_fn=lambda *a: None, verbose=False)
-    return bool(np.all(df[0] == 0))
-
-
-def pending_findings(ctx, pym, Poly):
-    """witnesses of the defects found while building this check; reported as known findings once the integrator has
-    registered the triples in known_findings.json, until then listed in the evidence (the check must exit 0)"""
-    pend = []
-    if probe_seed_alias(pym, Poly):
-        cs, pr, ic = NEW_FINDINGS['seed']
-        if registered(ctx, 'seed'):
-            ctx.violation('impl-violates', cs, pr, ic, dict(demo='findings/NEW_C19_seed_zeroed.py'))
-        else:
-            pend.append(dict(key='seed', call_site=cs, predicate=pr, input_class=ic, demo='findings/NEW_C19_seed_zeroed.py'))
-    # python complex sensitivity
-
-    class SqC(pym.Module):
-        def _response(self, x):
-            return x * x
-
-        def _sensitivity(self, dy):
-            return complex(2 * self.sig_in[0].state * dy)
-    x = pym.Signal('x', 2 + 1j)
-    m = SqC([x], pym.Signal('y'))
-    failed = False
-    try:
-        with contextlib.redirect_stdout(io.StringIO()):
-            pym.finite_difference(m, dx=0.25, random=False, test_fn=lambda *a: None, verbose=False)
-    except TypeError:
-        failed = True
-    if failed:
-        cs, pr, ic = NEW_FINDINGS['pycomplex']
-        if registered(ctx, 'pycomplex'):
-            ctx.violation('impl-violates', cs, pr, ic, dict(demo='findings/NEW_C19_imag_python_complex.py'))
-        else:
-            pend.append(dict(key='pycomplex', call_site=cs, predicate=pr, input_class=ic,
-                             demo='findings/NEW_C19_imag_python_complex.py'))
-    # an output of interest upstream of the selected sub-network keeps the seed
-    class Two(pym.Module):
-        def _response(self, x):
-            return 2.0 * x, 5.0 * x
-
-        def _sensitivity(self, d1, d2):
-            return (0 if d1 is None else 2.0 * d1) + (0 if d2 is None else 5.0 * d2)
-
-    class Three(pym.Module):
-        def _response(self, x):
-            return 3.0 * x
-
-        def _sensitivity(self, dy):
-            return 3.0 * dy
-    a, b, b2, c = pym.Signal('a', np.array([1., 2.])), pym.Signal('b'), pym.Signal('b2'), pym.Signal('c')
-    net = pym.Network(Two([a], [b, b2]), Three([b], [c]))
-    with contextlib.redirect_stdout(io.StringIO()):
-        pym.finite_difference(net, fromsig=[b], tosig=[b2, c], dx=0.25, random=False, test_fn=lambda *args: None)
-    if any(s.sensitivity is not None for s in (a, b, b2, c)):
-        cs, pr, ic = NEW_FINDINGS['upstream']
-        if registered(ctx, 'upstream'):
-            ctx.violation('impl-violates', cs, pr, ic, dict(demo='findings/NEW_C19_upstream_output_keeps_seed.py'))
-        else:
-            pend.append(dict(key='upstream', call_site=cs, predicate=pr, input_class=ic,
-                             demo='findings/NEW_C19_upstream_output_keeps_seed.py'))
-    ctx.extra['new_findings_pending_registration'] = pend
-    for p in pend:
-        print(f"NEW-FINDING (not yet in known_findings.json): property=C19 {p['call_site']}: {p['predicate']} [{p['input_class']}]")
+def regression_probes(ctx, pym, Poly, datas):
+    """the witnesses of the fixed findings F24, F25, F26, each checked for exactly the predicate under which it was
+    registered; a violation here means the defect is back (entries with status "fixed" suppress nothing)"""
+    byname = {lab[1]: data for data, lab in datas if lab[0] == 'corpus'}
+    for name, (cs, pr, ic) in FIXED_WITNESSES.items():
+        data = byname.get(name)
+        ctx.obligation(f'corpus:witness {name} present', 'harness', data is not None, '' if data is not None else 'missing corpus file')
+        if data is None:
+            continue
+        ctx.search_evaluations += 1
+        nd = normalise(data)
+        sc = Scenario(pym, Poly, nd)
+        case = dict(label=('corpus', name), scenario=data)
+        try:
+            res = run_fd(pym, sc, nd['fd'], __import__('random').Random(1))
+        except TypeError as e:
+            ctx.violation('impl-violates', cs if name.startswith('F25') else 'finite_difference',
+                          pr if name.startswith('F25') else 'the routine completes on well-formed networks',
+                          ic if name.startswith('F25') else 'exception', case, expected='no exception', got=repr(e)[:500])
+            continue
+        if name.startswith('F24'):
+            orig = [build_value(v) for v in nd['fd']['use_df']]
+            same = all(np.array_equal(np.asarray(a), np.asarray(b)) for a, b in zip(orig, res['use_df']))
+            fds = [t[3] for t in res['tuples']]
+            if not same or not fds or any(t[2] != t[3] for t in res['tuples']) or all(v == 0 for v in fds):
+                ctx.violation('impl-violates', cs, pr, ic, case, expected=dict(use_df=str(orig), pairs='matching, non-zero'),
+                              got=dict(use_df=str(res['use_df']), tuples=str(res['tuples'])))
+        elif name.startswith('F26'):
+            left = {i: str(r.sensitivity) for i, r in enumerate(sc.roots) if r.sensitivity is not None}
+            if left:
+                ctx.violation('impl-violates', cs, pr, ic, case, expected='every sensitivity None', got=left)
+        elif name.startswith('F25'):
+            if len(res['tuples']) != 2:
+                ctx.violation('impl-violates', cs, pr, ic, case, expected='a real and an imaginary tuple', got=str(res['tuples']))
 
 
 # ----------------------------------------------------------------------------- implementation-side property oracle
-def oracle(ctx, pym, Poly, results, more=False):
-    lim = len(results) if more else min(len(results), 250)
-    for data, res0 in results[:lim]:
-        if res0['err'] != 0 or data.get('meta', {}).get('pending'):
-            continue          # error outcomes / witnesses of pending findings are handled by pending_findings()
+def cq(z):
+    """complex float -> (re, im) exact rationals"""
+    z = complex(z)
+    return F(z.real), F(z.imag)
+
+
+def entry_list(v):
+    """flattened logical (C-order) entries of a value; a scalar is one entry"""
+    if sp.issparse(v):
+        v = v.toarray()
+    if isinstance(v, np.ndarray):
+        return [v.flat[i] for i in range(v.size)]
+    return [v]
+
+
+def executed(nd, fd):
+    """(i_first, i_last) of the modules the routine executes repeatedly"""
+    if not fd['network']:
+        return 0, 0
+    inps_ref = fd['fromsig'] if fd['fromsig'] is not None else nd['mods'][0]['ins']
+    outs_ref = fd['tosig'] if fd['tosig'] is not None else nd['mods'][0]['outs']
+    return subnetwork(nd['mods'], inps_ref, outs_ref)
+
+
+def fresh_response(pym, Poly, nd, i_first, i_last, perturb=None):
+    """independent evaluation: a fresh scenario; the modules before i_first run once; optionally entry k (logical
+    position) of the state of reference `ref` is shifted by delta; then the modules i_first..i_last run"""
+    sc = Scenario(pym, Poly, nd)
+    for r in sc.roots:
+        r.sensitivity = None
+    for m in sc.mods[:i_first]:
+        m.response()
+    if perturb is not None:
+        ref, k, delta = perturb
+        sig = sc.ref(ref)
+        x = sig.state
+        if isinstance(x, np.ndarray):
+            y = np.array(x, order='C', copy=True)
+            y.flat[k] = y.flat[k] + delta
+            sig.state = y
+        else:
+            sig.state = x + delta
+    for m in sc.mods[i_first:i_last + 1]:
+        m.response()
+    return sc
+
+
+def seeds_used(fd, outputs, rand_calls):
+    """the seed of every output of interest, reconstructed from the arguments alone (use_df / ones / the numbers our
+    np.random.rand replacement handed out, in call order)"""
+    seeds, pos = [], 0
+    for i, out in enumerate(outputs):
+        if fd.get('use_df') is not None:
+            seeds.append(build_value(fd['use_df'][i]))
+            continue
+        shape = out.shape if hasattr(out, 'shape') else ()
+        n = int(np.prod(shape)) if shape else 1
+        if fd['random']:
+            re = np.array([float(v) for v in rand_calls[pos]]).reshape(shape)
+            pos += 1
+            if np.iscomplexobj(out):
+                re = re + 1j * np.array([float(v) for v in rand_calls[pos]]).reshape(shape)
+                pos += 1
+            seeds.append(re)
+        else:
+            seeds.append(np.ones(shape) + (1j * np.ones(shape) if np.iscomplexobj(out) else 0))
+    return seeds
+
+
+def quotient(fp, f0, delta_re, imag, seed):
+    """Re (Im) of sum(((fp - f0) / delta) * seed) in exact rationals; delta = delta_re or i*delta_re"""
+    a, b, w = entry_list(fp), entry_list(f0), entry_list(seed)
+    if len(w) == 1 and len(a) > 1:
+        w = w * len(a)
+    tr, ti = Fraction(0), Fraction(0)
+    for x, y, z in zip(a, b, w):
+        (xr, xi), (yr, yi), (zr, zi) = cq(x), cq(y), cq(z)
+        dr, di = (xr - yr), (xi - yi)
+        if imag:
+            dr, di = di / delta_re, -dr / delta_re
+        else:
+            dr, di = dr / delta_re, di / delta_re
+        tr += dr * zr - di * zi
+        ti += dr * zi + di * zr
+    return ti if imag else tr
+
+
+def oracle(ctx, pym, Poly, results):
+    import random as _random
+    for data, res0 in results:
+        if res0['err'] != 0:
+            continue          # RuntimeError outcomes are compared by the correspondence only
         ctx.search_evaluations += 1
         nd = normalise(data)
         fd = nd['fd']
-        keep_out = False
         case = dict(scenario=data)
 
         def bad(pred, cls, expected=None, got=None):
             ctx.violation('impl-violates', 'finite_difference', pred, cls, case, expected=expected, got=got)
         try:
-            # (a) restoration and clean sensitivities
+            i_first, i_last = executed(nd, fd)
+            exec_mods = nd['mods'][i_first:i_last + 1]
             sc = Scenario(pym, Poly, nd)
-            before = None
-            # states of the sources are restored exactly; compare against a scenario that only ran the response
-            ref = Scenario(pym, Poly, nd)
-            with contextlib.redirect_stdout(io.StringIO()):
-                for m in ref.mods:
-                    m.response()
-            r1 = run_fd(pym, sc, fd, __import__('random').Random(1))
-            srcs = [i for i, r in enumerate(nd['roots']) if r['value'] is not None]
-            for i in srcs:
+            # the states a plain evaluation produces
+            ref = fresh_response(pym, Poly, nd, i_first, i_last)
+            r1 = run_fd(pym, sc, fd, _random.Random(1))
+            # (a0) the caller's use_df arrays are not modified
+            if fd.get('use_df') is not None:
+                for a, v in zip(r1['use_df'], fd['use_df']):
+                    b = build_value(v)
+                    if np.shape(a) != np.shape(b) or np.asarray(a).dtype != np.asarray(b).dtype or \
+                            not np.array_equal(np.asarray(a), np.asarray(b)):
+                        bad('seed array not modified; numerical value uses the seed', 'use_df', str(b), str(a))
+            # (a1) every input state — every state the executed modules do not produce — is restored exactly
+            inside = {o for m in exec_mods for o in m['outs']}
+            after_last = {o for m in nd['mods'][i_last + 1:] for o in m['outs']} - inside
+            for i in range(len(nd['roots'])):
+                if i in inside or i in after_last:
+                    continue
                 a, b = sc.roots[i].state, ref.roots[i].state
-                if not np.array_equal(np.asarray(a), np.asarray(b)):
+                same = (a is None and b is None) or (a is not None and b is not None and
+                                                     np.array_equal(flat(a), flat(b)) and np.shape(a) == np.shape(b))
+                if not same:
                     bad('every input state is restored exactly', 'restore', str(b), str(a))
-            sliced = {x['root'] for m in nd['mods'] for x in m['ins'] if x.get('index') is not None}
+            # (a2) no sensitivity is left on ANY signal: None; zeros only where an allocation is kept or on the base of
+            #      a slice of an executed module; a stale value that was there before the call may only survive where
+            #      the routine has no business (not a signal of the executed modules, not an output of interest)
+            direct = inside | {x['root'] for m in exec_mods for x in m['ins'] if x.get('index') is None}
+            slice_pos = {}
+            scn = Scenario(pym, Poly, nd)
+            for m in exec_mods:
+                for x in m['ins']:
+                    if x.get('index') is not None:
+                        st0 = ref.roots[x['root']].state
+                        A = np.arange(st0.size).reshape(st0.shape)[dec_index(x['index'])]
+                        slice_pos.setdefault(x['root'], set()).update(int(v) for v in np.asarray(A).ravel())
             for i, r in enumerate(sc.roots):
                 s = r.sensitivity
-                if nd['roots'][i].get('sens') is not None:
-                    continue      # a sensitivity that was there before the call (stale entries outside the slices / outside
-                    #               the selected sub-network are not the routine's); the correspondence compares them exactly
-                if s is not None and np.any(flat(s) != 0):
-                    bad('no sensitivity is left set after the call', 'restore', None, str(s))
-            # (b) tuple count
-            inps = [sc.ref(x) for x in r1['inps_ref']]
-            outs = [sc.roots[o] for o in r1['outs_ref']]
-            nexp = 0
-            for s in inps:
-                x = s.state
-                for v in (flat(x).tolist() if isinstance(x, np.ndarray) else [x]):
-                    if isinstance(x, np.ndarray) and v == 0 and fd['keep_zero']:
+                init = scn.roots[i].sensitivity
+                if init is None:
+                    if s is None or (i in slice_pos and not np.any(flat(s) != 0)):
                         continue
-                    nexp += len(outs) * (2 if np.iscomplexobj(x) else 1)
-            if len(r1['tuples']) != nexp:
-                bad('one tuple per perturbed entry and output (two for complex entries)', 'count', nexp, len(r1['tuples']))
-            # (c)+(d): exact extrapolation of the numerical values to dx -> 0 (polynomials of degree <= 4)
-            if fd['random'] and fd.get('use_df') is None:
-                continue          # different random seeds per run: skip the multi-dx comparison
-            if any(r.get('sens') is not None for r in nd['roots']) and False:
-                continue
+                    bad('no sensitivity is left set after the call', 'restore', None, f'signal {i}: {s}')
+                elif i in direct or i in r1['outs_ref']:
+                    if s is not None and np.any(flat(s) != 0):
+                        bad('no sensitivity is left set after the call', 'kept allocation', 'zeros', f'signal {i}: {s}')
+                else:
+                    exp = np.array(flat(init), copy=True)
+                    for pz in slice_pos.get(i, ()):
+                        exp[pz] = 0
+                    if s is None or not np.array_equal(flat(s), exp):
+                        bad('no sensitivity is left set after the call', 'stale allocation outside the routine',
+                            str(exp), f'signal {i}: {s}')
+            # (b) the tuples, recomputed independently: which entries, in which order, x0, dx, analytical value = entry
+            #     of the backpropagated sensitivity for the seed, numerical value = seed-weighted difference quotient
+            inps_ref, outs_ref = r1['inps_ref'], r1['outs_ref']
+            # precondition of the analytical clauses: the caller left no sensitivity on an entry of an input of interest
+            # that no reset of the executed modules reaches (the input of interest is the base Signal, the executed modules
+            # use it only through slices, and it was handed over with a non-zero sensitivity outside those slices)
+            dirty = False
+            for x in inps_ref:
+                i = x['root']
+                init = scn.roots[i].sensitivity
+                if init is None or i in direct or i in outs_ref:
+                    continue
+                pos = range(np.asarray(init).size) if x.get('index') is None else scn.ref_info(x)[0]
+                if any(flat(init)[pz] != 0 and pz not in slice_pos.get(i, ()) for pz in pos):
+                    dirty = True
+            if dirty:
+                ctx.count('oracle:left-over-sensitivity-on-input-not-reached-by-reset')
+            outputs = [ref.roots[o].state for o in outs_ref]
+            seeds = seeds_used(fd, outputs, r1['rand'])
+            dxv = 2.0 ** (-fd['k'])
+            an_sens = []
+            for o, w in zip(outs_ref, seeds):
+                scb = fresh_response(pym, Poly, nd, i_first, i_last)
+                scb.roots[o].sensitivity = copy.deepcopy(w)
+                for m in reversed(scb.mods[i_first:i_last + 1]):
+                    m.sensitivity()
+                an_sens.append([copy.deepcopy(scb.ref(x).sensitivity) for x in inps_ref])
+            exp_t = []
+            for iin, x_ref in enumerate(inps_ref):
+                x = ref.ref(x_ref).state
+                is_arr = isinstance(x, np.ndarray)
+                for k in (nditer_order(x) if is_arr else [0]):
+                    x0 = x.flat[k] if is_arr else x
+                    if is_arr and x0 == 0 and fd['keep_zero']:
+                        continue
+                    sf = float(np.abs(x0)) if (fd['relative'] and np.abs(x0) != 0) else 1.0
+                    for imag in ((False, True) if np.iscomplexobj(x0) else (False,)):
+                        delta = dxv * sf
+                        scp = fresh_response(pym, Poly, nd, i_first, i_last, (x_ref, k, (1j * delta) if imag else delta))
+                        for io, o in enumerate(outs_ref):
+                            g = quotient(scp.roots[o].state, outputs[io], F(delta), imag, seeds[io])
+                            sv = an_sens[io][iin]
+                            if sv is None:
+                                an = Fraction(0)
+                            else:
+                                e = entry_list(sv)
+                                an = cq(e[k] if (isinstance(sv, np.ndarray) and sv.ndim > 0) else e[0])[1 if imag else 0]
+                            exp_t.append((cq(x0), F(dxv), an, g))
+            got_t = [(cq(t[0]), F(t[1]), F(t[2]), F(t[3])) for t in r1['tuples']]
+            if len(got_t) != len(exp_t):
+                bad('one tuple per perturbed entry and output (two for complex entries)', 'count', len(exp_t), len(got_t))
+            else:
+                for e, (ge, ee) in enumerate(zip(got_t, exp_t)):
+                    if ge[0] != ee[0] or ge[1] != ee[1]:
+                        bad('tuples report the original entry and dx, in np.nditer order', 'order', str(ee[:2]), str(ge[:2]))
+                        break
+                    if ge[2] != ee[2] and not dirty:
+                        bad('analytical value equals the backpropagated sensitivity entry for the seed used', 'an-value',
+                            str(ee[2]), dict(tuple_index=e, got=str(ge[2])))
+                        break
+                    if ge[3] != ee[3]:
+                        bad('numerical value equals the seed-weighted difference quotient', 'fd-value',
+                            str(ee[3]), dict(tuple_index=e, got=str(ge[3])))
+                        break
+            # (c)+(d): exact extrapolation of the numerical values to dx -> 0 (polynomials of degree <= 4); the seeds are
+            #          the same in every run (our np.random.rand replacement restarts)
             runs = []
             for h in range(5):
                 sch = Scenario(pym, Poly, nd)
-                runs.append(run_fd(pym, sch, fd, __import__('random').Random(1), dx=2.0 ** (-(fd['k'] + h)))['tuples'])
+                runs.append(run_fd(pym, sch, fd, _random.Random(1), dx=2.0 ** (-(fd['k'] + h)))['tuples'])
             if any(len(t) != len(runs[0]) for t in runs):
                 bad('tuple count independent of dx', 'count')
                 continue
@@ -892,7 +1078,6 @@ def oracle(ctx, pym, Poly, results, more=False):
             mismatch = False
             for e in range(len(runs[0])):
                 hs = [Fraction(1, 2 ** (fd['k'] + h)) for h in range(5)]
-                sf = 1
                 gs = [F(runs[h][e][3]) for h in range(5)]
                 # Lagrange extrapolation to 0 through 5 points (exact for polynomials of degree <= 4 in dx)
                 T = Fraction(0)
@@ -904,12 +1089,12 @@ def oracle(ctx, pym, Poly, results, more=False):
                     T += w * gs[a]
                 an = F(runs[0][e][2])
                 g0 = gs[0]
-                # O(dx): the error halves (at least) with dx up to higher-order terms
+                # O(dx): the error is bounded by a multiple of dx
                 if abs(g0 - T) > 4096 * hs[0] * max(1, abs(T)):
                     bad('numerical value equals the true directional derivative up to O(dx)', 'fd-value', str(T), str(g0))
                 if an != T:
                     mismatch = True
-                    if not wrong_any:
+                    if not wrong_any and not dirty:
                         bad('a correct sensitivity is reported with a matching pair', 'an-value', str(T), str(an))
             if wrong_any and not mismatch and len(runs[0]) > 0:
                 # a wrong entry can hide behind a zero seed weight / an unperturbed (zero) entry: count, do not alarm
